@@ -27,9 +27,14 @@ body_alpha = st.sampled_from(["a", "b", "\r", "\n", "\r\n", "0", "5", ";", " ", 
 
 @st.composite
 def body_bytes(draw, max_size=60):
-    kind = draw(st.integers(0, 9))
+    kind = draw(st.integers(0, 11))
     if kind == 0:
         return ""
+    if kind in (10, 11) and max_size >= 60:
+        # sizes around the parser's internal block sizes (1024-byte body refill, 8192-byte reads)
+        n = draw(st.sampled_from([1023, 1024, 1025, 8191, 8192, 8193, 20000]))
+        pat = draw(st.sampled_from(["a", "ab\r\n", "0\r\n\r\n", "x" * 99 + "\n"]))
+        return (pat * (n // len(pat) + 1))[:n]
     if kind == 1:
         return SMUGGLED
     if kind == 2:
